@@ -534,14 +534,17 @@ def _worker(args):
 
 
 CONFIGS = [('ed25519', 'bare', 'equal'), ('p256', 'bare', 'increasing'), ('p256', 'rich', 'equal'), ('ed25519', 'rich', 'increasing')]
+LEN4_CONFIGS = (0, 3)       # thorough: length-4 sequences only from these two configurations (50625 sequences each)
 
 
 def component(tier='quick', seed=0, known=()):
     warnings.simplefilter('ignore')
     maxlen, nwalks, walklen = (3, 40, 20) if tier == 'quick' else (4, 300, 25)
     jobs = []
-    for alg, base, timing in CONFIGS:
+    for ci, (alg, base, timing) in enumerate(CONFIGS):
         for n in range(1, maxlen + 1):
+            if n == 4 and ci not in LEN4_CONFIGS:
+                continue
             for ops in itertools.product(OPS_QUICK, repeat=n):
                 jobs.append(('seq', alg, base, timing, ops))
     rnd = random.Random(seed)
@@ -573,7 +576,8 @@ def component(tier='quick', seed=0, known=()):
     violations = [{'case': c, 'what': '%s [%s]' % (c['problem'], k), 'count': counts[k]} for k, c in list(first.items())[:6]]
     nseq = sum(1 for j in jobs if j[0] == 'seq')
     return {'name': 'C15/key-management-histories',
-            'bound': 'every sequence of length <= %d over %d operations (%s) from 4 (algorithm, base state, timing) configurations %s, '
+            'bound': 'every sequence of length <= %d over %d operations (%s) from 4 (algorithm, base state, timing) configurations %s '
+                     '(length 4: only the first and the last configuration), '
                      'invariant evaluated at the end of each sequence (every prefix is itself enumerated); plus %d seeded random walks '
                      'of length %d over %d operations with random equal/later timestamps, invariant evaluated after every step'
                      % (maxlen, len(OPS_QUICK), ', '.join(OPS_QUICK), CONFIGS, nwalks, walklen, len(OPS_ALL)),
@@ -586,6 +590,7 @@ def component(tier='quick', seed=0, known=()):
             'signatures_verified_independently': sum(r['sigs'] for r in results),
             'samples': [results[0]['case'], results[len(results) // 2]['case'], results[-1]['case']],
             'failure_classes': dict(counts),
+            'notes': 'worker processes lower the S2K iteration-count octet that PGPKey.protect uses (HashAlgorithm._tuned_count, a data attribute: 255 -> 96) to keep protect/unlock cheap; no pgpy code is replaced',
             'violations': violations,
             'known_hits': known_hits}
 
